@@ -164,7 +164,7 @@ def _replay(task):
         for tgt, nm, res in beh["disk"]:
             # CLI ops parse with default settings; parse_from_file with `settings`: which op wrote this file last?
             want_files[os.path.join(TGT[tgt], nm[0] + nm[1])] = res[1]
-        have = {p for p in _listing(root) if not p.startswith(IN + "/") and not p.endswith("keep.me")}
+        have = {p for p in _listing(root, dirs=False) if not p.startswith(IN + "/") and not p.endswith("keep.me")}
         if have != set(want_files):
             probs.append({"problem": "files on disk differ from the specification's state", "expected": sorted(want_files), "observed": sorted(have)})
         else:
@@ -183,11 +183,15 @@ def _replay(task):
         shutil.rmtree(root, ignore_errors=True)
 
 
-def _listing(root):
+def _listing(root, dirs=True):
+    """files, and (dirs=True) directories as `name/`: a call without dump must not even create the target directory"""
     out = []
-    for d, _, fs in os.walk(root):
+    for d, ds, fs in os.walk(root):
         for f in fs:
             out.append(os.path.relpath(os.path.join(d, f), root))
+        if dirs:
+            for x in ds:
+                out.append(os.path.relpath(os.path.join(d, x), root) + "/")
     return sorted(out)
 
 
